@@ -9,7 +9,7 @@ RULE = ("RangeFields/IndividualFields in-process (exact-size heap copy of the li
         "items; oracle: lines containing all selected fields are grouped by their selected fields (spec) and every group must "
         "map to exactly one piece sequence, distinct groups to distinct ones; ParseFields/DefragmentFields: every string of "
         "length <= 5 over {0,1,2,3,',','-'} plus boundary numbers and foreign characters, oracle = the cut LIST grammar; "
-        "dedupe -f on the same lines; non-trivial = distinct op")
+        "dedupe -f on the same lines, also in -p mode on either side; non-trivial = distinct op")
 ASSUMPTIONS = ["model transcribes preprocess/fields.hh and fields.cc by hand",
                "64-bit hash collisions excepted (keys are compared as piece sequences, not hashes, except through dedupe)"]
 
@@ -179,6 +179,36 @@ def run(ctx):
                                    summary=f"dedupe -f {spec_list}: kept {extra!r} although an earlier line has the same selected fields; "
                                            f"dropped {missing!r}")
             continue
+        # dedupe -f ... -p in0 in1 out0 out1: each side has its own filter object and key; with unique keys on the other side a pair
+        # survives exactly when this side's selected fields are new, whichever side it is
+        sub = ls[:300]
+        uniq = [b"\t".join([b"u%d" % i] * 6) for i in range(len(sub))]
+        seen2, keep = set(), []
+        for i, s_ in enumerate(sp[:len(sub)]):
+            if s_ not in seen2:
+                seen2.add(s_)
+                keep.append(i)
+        for side in (0, 1):
+            f = [os.path.join(ctx.tmp, n_) for n_ in ("p_in0", "p_in1", "p_out0", "p_out1")]
+            sides = (sub, uniq) if side == 0 else (uniq, sub)
+            for k_ in (0, 1):
+                open(f[k_], "wb").write(b"".join(l + b"\n" for l in sides[k_]))
+            for o_ in f[2:]:
+                if os.path.exists(o_):
+                    os.unlink(o_)
+            st, out, err = pvlib.run_tool([ctx.bin("dedupe"), "-f", spec_list, "-p"] + f, env=pvlib.san_env())
+            ctx.count("dedupe-f-p", 1, [(spec_list, side)])
+            o = [open(x, "rb").read() if os.path.exists(x) else b"" for x in f[2:]]
+            wantp = [b"".join(sides[k_][i] + b"\n" for i in keep) for k_ in (0, 1)]
+            if st != 0 or o != wantp:
+                got = o[side].split(b"\n")[:-1]
+                missing = [sub[i] for i in keep if sub[i] not in got][:3]
+                pvlib.report_violation(ctx, f"dedupe-f-p:{spec_list}:side{side}", {"argv": ["dedupe", "-f", spec_list, "-p", "in0", "in1", "out0", "out1"], "status": st,
+                                       "in0": hx(b"".join(l + b"\n" for l in sides[0])), "in1": hx(b"".join(l + b"\n" for l in sides[1])),
+                                       "pairs_out": len(got), "pairs_expected": len(keep), "dropped_but_new_key": [hx(x) for x in missing]},
+                                       summary=f"dedupe -f {spec_list} -p with the generated lines as input {side} and unique lines as the other input: {len(got)} pairs out, "
+                                               f"{len(keep)} have new selected fields" + (f"; {missing[0]!r} was dropped" if missing else "") + f" (status {st})")
+                break
         # shard -f: lines with the same selected fields are in the same file
         import shutil
         wd = os.path.join(ctx.tmp, "c10shard")
